@@ -418,7 +418,8 @@ def oracle_lru(cfg, ops, trace):
                     victims = prefix[jj:]
                     STATS["lru:minimality_checked"] += 1
                     if victims:
-                        if not (o == "I" and int(toks[1]) not in prev.map):
+                        # (an insert over an entry that has expired is a fresh insert once the purge has removed it)
+                        if not (o == "I" and (int(toks[1]) not in prev.map or expired_u(cfg, prev.map[int(toks[1])], now))):
                             return f"op {i} `{' '.join(toks)}`: {victims} removed beyond the excess {excess} without an admission"
                         need = weigh(cfg, int(toks[1]), int(toks[2]))
                         if sum(w(k) for k in victims[:-1]) >= need:
@@ -427,7 +428,11 @@ def oracle_lru(cfg, ops, trace):
         # that applies it removes for size exactly the shortest prefix of the recency order (the updated key now
         # most recent, expired entries purged first) that covers the excess: no more, no fewer
         if (not unsync) and o == "S" and prev is not None and last_op is not None and before_last is not None \
-                and last_op[0] == "I" and prev.rq == 0 and prev.wq == 1 and before_last.rq == 0 and before_last.wq == 0:
+                and last_op[0] == "I" and prev.rq == 0 and prev.wq == 1 and before_last.rq == 0 and before_last.wq == 0 \
+                and prev.va is None:
+            # (not after an invalidate_all: an entry it hides from lookups may stay physically held - and counted -
+            #  when a read at the very reading of the call refreshed its access time; which entries the sweep can
+            #  purge is then not what `expired_s` says)
             k = int(last_op[1])
             e0 = before_last.map.get(k)
             if e0 is not None and e0["adm"] and k in prev.map:
